@@ -128,6 +128,8 @@ pub enum Class {
     /// adjacent indirect packet loads: the second one is indexed by what the first one loaded (source
     /// register r0), or both use the same other source register
     ProbePktChain,
+    /// an indirect packet load inside a counter loop, the index register growing by a step each time
+    ProbePktLoop,
 }
 
 impl Class {
@@ -146,6 +148,7 @@ impl Class {
             Class::ProbePktReload => "ProbePktReload",
             Class::DeepCall => "DeepCall",
             Class::ProbePktChain => "ProbePktChain",
+            Class::ProbePktLoop => "ProbePktLoop",
             Class::ProbeR1 => "ProbeR1",
             Class::ProbeSlotData => "ProbeSlotData",
             Class::ProbeSlotLen => "ProbeSlotLen",
@@ -201,6 +204,7 @@ impl Class {
             Class::ProbePktReload,
             Class::DeepCall,
             Class::ProbePktChain,
+            Class::ProbePktLoop,
         ] {
             if c.name() == s {
                 return Some(c);
@@ -1069,6 +1073,31 @@ pub fn gen_probe_pkt_chain(tag: u8, i0: usize, imms: &[usize], via_r0: bool, src
     p.p1 = (imms.len() as i64) | if via_r0 { 0x100 } else { 0 };
     p.w = 1;
     p.min_pkt = 256 + i0 + imms.iter().copied().max().unwrap_or(0) + 8;
+    p
+}
+
+/// r6 = 0; r7 = start; r8 = count; L: ldind{w} r7, imm; r6 = r6 * 31 + r0; r7 += step; r8 -= 1;
+/// jne r8, 0, L; r0 = r6 & 0xffffff. `p0` = start, `p1` = count | step << 8 | imm << 24.
+pub fn gen_probe_pkt_loop(tag: u8, start: usize, count: usize, step: usize, imm: usize, w: u8) -> Prog {
+    let mut b = B::new(tag);
+    b.i(MOV64_IMM, 6, 0, 0, 0);
+    b.i(MOV64_IMM, 7, 0, 0, start as i32);
+    b.i(MOV64_IMM, 8, 0, 0, count as i32);
+    b.i(MOV64_IMM, 0, 0, 0, -1); // L
+    b.i(ld_opcode(LD_IND_B, w), 0, 7, 0, imm as i32);
+    b.i(0x27, 6, 0, 0, 31); // mul64 r6, 31
+    b.i(0x0f, 6, 0, 0, 0); // add64 r6, r0
+    b.i(ADD64_IMM, 7, 0, 0, step as i32);
+    b.i(0x17, 8, 0, 0, 1); // sub64 r8, 1
+    b.i(0x55, 8, 0, -7, 0); // jne r8, 0, L
+    b.i(MOV64_REG, 0, 6, 0, 0);
+    b.i(0x57, 0, 0, 0, 0xff_ffff); // and64 r0, 0xffffff
+    b.trailer(tag);
+    let mut p = mk(b.v, tag, Class::ProbePktLoop);
+    p.p0 = start as i64;
+    p.p1 = (count | step << 8 | imm << 24) as i64;
+    p.w = w;
+    p.min_pkt = start + (count - 1) * step + imm + 8;
     p
 }
 
